@@ -72,6 +72,55 @@ class PlannedFailure(Exception):
     pass
 
 
+def node_id_of(node_name):
+    try:
+        return int(str(node_name).rsplit("-", 1)[1])
+    except (IndexError, ValueError):
+        return -1
+
+
+DEFAULT_LAYOUT = {"home": "elasticsearch", "data": ["disk"], "form": "list", "missing": [], "extra": []}
+
+
+class LayoutCar:
+    """what ElasticsearchInstaller._data_paths reads of a car"""
+
+    def __init__(self, variables):
+        self.variables = variables
+
+
+def data_paths_of_car(es_home, layout, root):
+    """the data paths of a node as the REAL ElasticsearchInstaller derives them from the car variable `data_paths` (absent =
+    <es home>/data, a string, a list); the scenario's own reading is `layout_paths`"""
+    from esrally.mechanic import provisioner
+
+    variables = {}
+    if layout.get("data") is not None:
+        absolute = [os.path.join(root, d) for d in layout["data"]]
+        variables["data_paths"] = absolute[0] if layout.get("form") == "str" and len(absolute) == 1 else absolute
+    try:
+        inst = object.__new__(provisioner.ElasticsearchInstaller)
+        inst.car = LayoutCar(variables)
+        inst.es_home_path = es_home
+        return list(inst._data_paths())  # pylint: disable=protected-access
+    except AttributeError:  # the installer keeps this elsewhere now: the scenario's reading
+        return [os.path.join(root, d) for d in layout_paths(layout)[1]]
+
+
+def layout_paths(layout):
+    """(installation, data paths) relative to the node's root directory - the scenario's word"""
+    home = "install/" + layout["home"]
+    return home, ([home + "/data"] if layout.get("data") is None else list(layout["data"]))
+
+
+def list_dirs(root):
+    out = []
+    for d, _, _ in os.walk(root):
+        rel = os.path.relpath(d, root)
+        out.append("" if rel == "." else rel)
+    return sorted(out)
+
+
 # ------------------------------------------------------------------------------------------------
 # recording collaborators
 # ------------------------------------------------------------------------------------------------
@@ -93,6 +142,14 @@ class RecStore:
 
     def reset_relative_time(self):
         pass
+
+    def put_value_node_level(self, node_name, name, value, unit=None, **kw):
+        # what ProcessLauncher.stop -> Telemetry.store_system_metrics hands over for a node (not part of the actor protocol)
+        self.sim.sysmetrics.append([node_id_of(node_name), name])
+
+    def add_meta_info(self, scope, scope_key, key, value):
+        if key == "os_name":  # one per telemetry.add_metadata_for_node
+            self.sim.metainfo.append(node_id_of(scope_key))
 
     def __getattr__(self, name):  # the telemetry devices of the real launcher write node-level metrics / meta info
         if name.startswith(("put_", "add_meta")):
@@ -138,11 +195,22 @@ class RecProvisioner:
 
             raise exceptions.SystemSetupError(f"planned provisioning failure on group {self.h}")
         seq = len(self.sim.install_dirs)
-        inst = os.path.join(self.sim.tmp, f"install-{nid}-{seq}")
-        data = os.path.join(self.sim.tmp, f"data-{nid}-{seq}")
+        layouts = self.sim.spec.get("layouts") or []
+        layout = layouts[nid] if nid < len(layouts) and layouts[nid] else DEFAULT_LAYOUT
+        root = os.path.join(self.sim.tmp, f"node-{nid}-{seq}")
+        inst = os.path.join(root, "install", layout["home"])
         os.makedirs(inst)
-        os.makedirs(data)
-        self.sim.install_dirs[inst] = (nid, data)
+        want_inst, want_data = layout_paths(layout)
+        for d in want_data:  # every data path holds something (an index), unless the scenario says it was never created
+            if d not in (layout.get("missing") or []):
+                os.makedirs(os.path.join(root, d, "nodes", "0"), exist_ok=True)
+                with open(os.path.join(root, d, "nodes", "0", "segments"), "w") as f:
+                    f.write("x")
+        for d in layout.get("extra") or []:  # bystanders that are not the node's
+            os.makedirs(os.path.join(root, d), exist_ok=True)
+        data_paths = data_paths_of_car(inst, layout, root)
+        data = data_paths[0] if data_paths else inst
+        self.sim.install_dirs[inst] = (nid, root, layout)
         if self.sim.process_backend:
             from esrally.mechanic import provisioner
 
@@ -151,8 +219,8 @@ class RecProvisioner:
             with open(script, "w") as f:  # a planned launch failure: the first daemon of the host does not come up
                 f.write(FAKE_ES_FAILS if p == "failLaunch" and self.idx == 0 else FAKE_ES)
             os.chmod(script, 0o755)
-            return provisioner.NodeConfiguration("tar", "17", True, ip_str(self.sim.keys[self.h][0]), self.node_name, inst + ".root", inst, [data])
-        return NodeConfig(self.node_name, inst, [data])
+            return provisioner.NodeConfiguration("tar", "17", True, ip_str(self.sim.keys[self.h][0]), self.node_name, inst + ".root", inst, data_paths)
+        return NodeConfig(self.node_name, inst, data_paths)
 
 
 # stand-in for `bin/elasticsearch -d -p <pidfile>`: daemonises a process that records every SIGTERM it gets next to (not inside)
@@ -228,8 +296,18 @@ class ProcessBackedLauncher:
         return nodes
 
     def stop(self, nodes, metrics_store):
-        self.sim.call(self.h, "lstop", [int(n.node_name.rsplit("-", 1)[1]) for n in nodes])
-        return self.real.stop(nodes, metrics_store)
+        ids = [int(n.node_name.rsplit("-", 1)[1]) for n in nodes]
+        self.sim.call(self.h, "lstop", ids)
+        # fault sequence: the daemons of the nodes in spec["deaths"] have disappeared on their own (OOM, operator) some time
+        # after the start; nothing looks at a process between start and stop, so "just before the stop" is every such time
+        dead = [k for k, i in enumerate(ids) if i in (self.sim.spec.get("deaths") or []) and self.sim.kill_daemon(i)]
+        stopped = self.real.stop(nodes, metrics_store)
+        try:
+            names = [node_id_of(n.node_name) for n in stopped]
+        except Exception as e:  # pylint: disable=broad-except
+            names = f"{type(e).__name__}: {e}"
+        self.sim.stops.append({"group": self.h, "ids": ids, "dead": dead, "stopped": names})
+        return stopped
 
 
 class RecNode:
@@ -326,14 +404,18 @@ def install_patches():
             return ProcessBackedLauncher(cfg) if CUR.process_backend else RecLauncher(cfg)
 
     def cleanup(preserve, install_dir, data_paths):
-        real_cleanup(preserve=preserve, install_dir=install_dir, data_paths=data_paths)
         sim = CUR
-        nid, data = sim.install_dirs.get(install_dir, (None, None))
+        nid, root, layout = sim.install_dirs.get(install_dir, (None, None, None))
+        before = list_dirs(root) if root else []
+        real_cleanup(preserve=preserve, install_dir=install_dir, data_paths=data_paths)
+        if root:
+            def rel(p):
+                r = os.path.relpath(p, root)
+                return "" if r == "." else r
+
+            sim.cleanups.append({"node": nid, "preserve": bool(preserve), "install": rel(install_dir), "data": [rel(d) for d in data_paths],
+                                 "layout": layout, "before": before, "after": list_dirs(root) if os.path.isdir(root) else []})
         kept = os.path.exists(install_dir)
-        kept_data = all(os.path.exists(d) for d in data_paths)
-        gone_data = not any(os.path.exists(d) for d in data_paths)
-        if kept != kept_data and not (kept is False and gone_data):
-            sim.anomaly(f"cleanup left a half-removed installation for node {nid}")
         h = [i for i, ids in enumerate(sim.ids) if nid in ids]
         sim.call(h[0] if h else -1, "cleanup", nid, bool(kept))
 
@@ -490,6 +572,11 @@ class Sim:
         self.anomalies = []
         self.proc_problems = []
         self.torn_down = False
+        self.cleanups = []  # per provisioner.cleanup call: arguments, directory listing before / after
+        self.stops = []  # per ProcessLauncher.stop: node ids, which daemons were already gone, returned stopped nodes
+        self.sysmetrics = []  # [node id, metric name] per node-level system metric handed to the metrics store
+        self.metainfo = []  # node id per telemetry.add_metadata_for_node
+        self.died = []
         self.launches = []  # per successful ProcessLauncher.start: which node's own daemon each returned node tracks
         self.daemons = {}  # node id -> {"pid", "inst"} (ground truth: the pid file in the node's own installation)
         self.process_backend = (spec.get("ambient") or {}).get("launcher") == "process"
@@ -555,6 +642,34 @@ class Sim:
                 continue
             self.daemons[nid] = {"pid": truth[nid], "inst": nc.binary_path}
         return truth
+
+    def kill_daemon(self, nid):
+        """SIGKILL the daemon of a node (its whole process group) and reap it, so that no process with this pid exists any more"""
+        import signal
+        import time
+
+        import psutil
+
+        d = self.daemons.get(nid)
+        if not d or not pid_alive(d["pid"]):
+            return False
+        try:
+            os.killpg(os.getpgid(d["pid"]), signal.SIGKILL)
+        except OSError:
+            return False
+        for _ in range(5000):
+            try:
+                os.waitpid(-1, os.WNOHANG)
+            except ChildProcessError:
+                pass
+            if not psutil.pid_exists(d["pid"]):
+                break
+            time.sleep(0.001)
+        else:
+            self.anomaly(f"harness: the killed daemon of node {nid} does not go away")
+            return False
+        self.died.append(nid)
+        return True
 
     def plan(self, h):
         p = self.spec["plans"]
@@ -1006,6 +1121,11 @@ class Sim:
         return {
             "torn_down": self.torn_down,
             "processes": processes,
+            "cleanups": self.cleanups,
+            "stops": self.stops,
+            "sysmetrics": self.sysmetrics,
+            "metainfo": self.metainfo,
+            "died": self.died,
             "launches": self.launches,
             "proc_problems": self.proc_problems,
             "trace": trace,
